@@ -26,6 +26,8 @@ def columns(seed, tier, methods=None):
         prefix = gen.TAG[m] if m else None
         mn = facts.MIN_NRBYTES[fm]
         nrs = sorted(set([-2147483648, -1, 0, max(mn - 1, 0), mn, 16, 17, 64, 65, 100, 124, 200, 256]))
+        if tier == "thorough" and methods is None:
+            nrs = sorted(set(nrs) | set(range(0, 140)))
         counts = facts.interesting_counts(fm)
         if tier == "quick":
             # every class kept: 0, min, default, interior, power of ten, max
@@ -215,7 +217,7 @@ def run(tier):
         run_.merge(acc)
     for acc in pool.pmap(do_config, [(c, run_.seed, tier) for c in CONFIGS]):
         run_.merge(acc)
-    nl = 2000 if tier == "quick" else 20000
+    nl = 2000 if tier == "quick" else 100000
     for acc in pool.pmap(do_large, [(run_.seed * 100 + i, nl // 16) for i in range(16)]):
         run_.merge(acc)
     a = run_.acc
